@@ -388,21 +388,31 @@ def identity_contract(seqs, trace):
                 m, d = exp[i][j]
                 if d and abs(float(got[i, j]) - m / d) > 1e-9:
                     return f"get_pairwise_sequence_identity({mode})[{i},{j}] = {float(got[i, j]):.4f}, column count gives {m}/{d}"
-        if n == 2:
-            m, d = exp[0][1]
-            try:
-                g1 = align.get_sequence_identity(ali, mode)
-            except ValueError:
+        # identity over ALL rows: columns in which every row has the same symbol (and no gap)
+        m_all = sum(1 for t in cols if all(x != -1 for x in t) and len({int(seqs[r].code[t[r]]) for r in range(n)}) == 1)
+        if mode == "all":
+            d_all = len(cols)
+        elif mode == "shortest":
+            d_all = min(len(x) for x in seqs)
+        else:
+            firsts = [[k for k, t in enumerate(cols) if t[r] != -1] for r in range(n)]
+            d_all = (min(f[-1] for f in firsts) + 1 - max(f[0] for f in firsts)) if all(firsts) else 0
+        try:
+            g1 = align.get_sequence_identity(ali, mode)
+        except ValueError:
+            if mode == "not_terminal" and d_all <= 0:
                 continue
-            if d and abs(g1 - m / d) > 1e-9:
-                return f"get_sequence_identity({mode}) = {g1:.4f}, column count gives {m}/{d}"
+            raise
+        if d_all > 0 and abs(g1 - m_all / d_all) > 1e-9:
+            return f"get_sequence_identity({mode}) over {n} rows = {g1:.4f}, column count gives {m_all}/{d_all}"
     return None
 
 
 ID_SEQS = [seq.NucleotideSequence(x) for x in ("ACACGT", "CCAGT", "TACG")]
 ID_TRACES2 = [[(1, 0), (2, 1), (3, 2)], [(0, 1), (1, -1), (2, 2), (3, 3)], [(2, 0), (3, 1), (-1, 2), (4, 3), (5, 4)], [(0, 0), (1, 1), (2, 2), (3, 3), (4, 4), (5, -1)],
               [(3, 2)], [(1, 1), (2, -1), (3, -1), (4, 2)]]
-ID_TRACES3 = [[(1, 0, -1), (2, 1, 0), (3, 2, 1), (4, -1, 2)], [(0, 0, 0), (1, 1, 1), (2, 2, 2), (3, 3, 3)], [(2, -1, 1), (3, 2, 2), (4, 3, -1)]]
+ID_TRACES3 = [[(1, 0, -1), (2, 1, 0), (3, 2, 1), (4, -1, 2)], [(0, 0, 0), (1, 1, 1), (2, 2, 2), (3, 3, 3)], [(2, -1, 1), (3, 2, 2), (4, 3, -1)],
+              [(0, 1, 1), (1, 2, 2), (2, 3, 3), (4, 0, 0)], [(0, 0, 1), (2, 1, 3), (4, 3, 2), (5, 4, 0)]]
 for trace in ID_TRACES2:
     for a, b in ((0, 1), (1, 0)):
         tr = [(t[a], t[b]) for t in trace]
@@ -415,6 +425,46 @@ for trace in ID_TRACES3 + [[(0, -1, -1), (1, -1, -1), (2, 0, -1), (3, 1, 0), (4,
 for trace in ID_TRACES3:
     R.check("identity helpers == column-by-column recomputation", "identity of partial 3-row traces", {"trace": trace},
             lambda trace=trace: identity_contract(ID_SEQS, trace))
+
+def indexing_contract(trace):
+    """Alignment[columns] / Alignment[columns, rows]: the selected columns of the trace, the selected rows with THEIR
+    sequences, the score kept; len() == number of columns; == compares sequences, trace and score"""
+    tr = np.array(trace, dtype=np.int64)
+    ali = align.Alignment(ID_SEQS, tr, 42)
+    L = len(tr)
+    if len(ali) != L:
+        return f"len() = {len(ali)}"
+    col_sel = [slice(None), slice(1, None), slice(None, -1), slice(0, L, 2), [0, L - 1], np.arange(L) % 2 == 0]
+    row_sel = [slice(None), [0, 2], [2, 0], [1], slice(1, 3), np.array([True, False, True]), np.array([2, 1, 0])]
+    for cs in col_sel:
+        sub = ali[cs]
+        exp = tr[cs]
+        if sub.trace.tolist() != exp.tolist() or [str(x) for x in sub.sequences] != [str(x) for x in ID_SEQS] or sub.score != 42:
+            return f"alignment[{cs}] has trace {sub.trace.tolist()}, expected {exp.tolist()}"
+        for rs in row_sel:
+            if not isinstance(cs, slice) and not isinstance(rs, slice):
+                continue          # two index arrays are paired element-wise by NumPy: not a column x row selection
+            sub = ali[cs, rs]
+            exp = tr[cs][:, rs]
+            rows = list(np.arange(3)[rs])
+            if sub.trace.tolist() != exp.tolist():
+                return f"alignment[{cs}, {rs}] has trace {sub.trace.tolist()}, expected {exp.tolist()}"
+            if [str(x) for x in sub.sequences] != [str(ID_SEQS[r]) for r in rows]:
+                return f"alignment[{cs}, {rs}] carries the sequences {[str(x) for x in sub.sequences]}, rows {rows} were selected"
+            if sub.score != 42:
+                return "indexing lost the score"
+    same = align.Alignment(ID_SEQS, tr.copy(), 42)
+    if not (ali == same) or ali == align.Alignment(ID_SEQS, tr.copy(), 41) or ali == align.Alignment(ID_SEQS, tr[::-1].copy(), 42) or \
+            ali == align.Alignment(ID_SEQS[::-1], tr.copy(), 42) or ali == "x":
+        return "== of alignments"
+    if ali.trace.tolist() != tr.tolist():
+        return "indexing changed the alignment"
+    return None
+
+
+for trace in ID_TRACES3:
+    R.check("conversions recover trace and sequences; helpers == column-wise recomputation", "alignment indexing", {"trace": trace},
+            lambda trace=trace: indexing_contract(trace))
 
 # progressive multiple alignment
 POOL = ["ACGT", "ACT", "AGGT", "TTACG", "ACGTT", "CGT"]
